@@ -5,10 +5,18 @@
 
   The grammar of valid BIDS entity records (`ValidEnt`, `Label`, `Seg`) is defined in
   Rsa/Lemmas/C20Bids.lean; it is a superset of the BIDS rule "labels are alphanumeric".
+
+  Round 3: the theorems about parsing / formatting / look-ups / file names are stated about the
+  *source-spelled* model `Rsa.Importers.Src.*` (Rsa/Core/C20Syntax.lean), whose separators, keys,
+  entity orders, look-up dicts and slice bounds are regenerated from the source on every run; each
+  proof first rewrites with the `Src.f = f` lemmas of Rsa/Lemmas/C20Syntax.lean (which fail when
+  a constant of the source changes) and then argues about the literal model.
 -/
 import Rsa.Lemmas.C20Bids
 import Rsa.Lemmas.C20Num
 import Rsa.Lemmas.C20Meadows
+import Rsa.Lemmas.C20Hrf
+import Rsa.Lemmas.C20Syntax
 
 set_option linter.unusedSectionVars false
 set_option linter.unusedVariables false
@@ -252,7 +260,9 @@ private theorem modality_back (h : ValidEnt e) (f : Str) :
 /-- **Round trip.**  For every valid entity record — subject, modality, suffix, extension and
     any of the 2⁶ presence patterns of session, task, run, space, description, derivative —
     parsing the formatted path gives back exactly the record. -/
-theorem bids_roundtrip (e : BidsEnt) (h : ValidEnt e) : bidsParse (bidsFormat e) = .ok e := by
+theorem bids_roundtrip (e : BidsEnt) (h : ValidEnt e) :
+    Src.bidsParse (Src.bidsFormat e) = .ok e := by
+  rw [Src.bidsParse_eq, Src.bidsFormat_eq]
   have hf := fname_ok h
   have hd := dirs_ok h
   have hall : ∀ b ∈ bidsDirs e ++ [bidsFname e], b ≠ [] ∧ '/' ∉ b := by
@@ -284,7 +294,8 @@ theorem bids_roundtrip (e : BidsEnt) (h : ValidEnt e) : bidsParse (bidsFormat e)
 /-- **Rebuilding.**  Parsing a valid path and rebuilding a path from the parsed entities
     returns the original path. -/
 theorem bids_rebuild (e : BidsEnt) (h : ValidEnt e) :
-    (bidsParse (bidsFormat e)).map (fun b => bidsReplace b {}) = .ok (bidsFormat e) := by
+    (Src.bidsParse (Src.bidsFormat e)).map (fun b => Src.bidsReplace b {}) =
+      .ok (Src.bidsFormat e) := by
   rw [bids_roundtrip e h]; rfl
 
 /-- **Look-ups change only what they are asked to change.**  For a valid base file `e` (which
@@ -293,12 +304,16 @@ theorem bids_rebuild (e : BidsEnt) (h : ValidEnt e) :
 theorem lookup_changes_only (e : BidsEnt) (h : ValidEnt e) (desc suffix : Str)
     (hdesc : Label desc)
     (hsuf : '_' ∉ suffix ∧ '/' ∉ suffix ∧ '-' ∉ suffix ∧ '.' ∉ suffix) :
-    bidsParse (findMetaFor e) = .ok { e with ext := sJson } ∧
-    bidsParse (findEventsFor e) =
+    Src.bidsParse (Src.findMetaFor e) = .ok { e with ext := sJson } ∧
+    Src.bidsParse (Src.findEventsFor e) =
       .ok { e with derivative := none, space := none, desc := none, suffix := sEvents, ext := sTsv } ∧
-    bidsParse (findTableSiblingOf e desc suffix) =
+    Src.bidsParse (Src.findTableSiblingOf e desc suffix) =
       .ok { e with desc := some desc, suffix := suffix, ext := sTsv, space := none } ∧
-    bidsParse (findMriSiblingOf e desc suffix) = .ok { e with desc := some desc, suffix := suffix } := by
+    Src.bidsParse (Src.findMriSiblingOf e desc suffix) =
+      .ok { e with desc := some desc, suffix := suffix } := by
+  simp only [Src.findMetaFor, Src.findEventsFor, Src.findTableSiblingOf, Src.findMriSiblingOf,
+    Src.bidsReplace, Src.metaRepl_eq, Src.eventsRepl_eq, Src.tableSiblingRepl_eq,
+    Src.mriSiblingRepl_eq]
   have hj : '_' ∉ sJson ∧ '/' ∉ sJson := ⟨by decide, by decide⟩
   have ht : '_' ∉ sTsv ∧ '/' ∉ sTsv := ⟨by decide, by decide⟩
   have hev : '_' ∉ sEvents ∧ '/' ∉ sEvents ∧ '-' ∉ sEvents ∧ '.' ∉ sEvents :=
@@ -309,6 +324,30 @@ theorem lookup_changes_only (e : BidsEnt) (h : ValidEnt e) (desc suffix : Str)
       { h with ext := ht, suffix := hev, derivative := trivial, space := trivial, desc := trivial }
   · exact bids_roundtrip _ { h with ext := ht, suffix := hsuf, desc := hdesc, space := trivial }
   · exact bids_roundtrip _ { h with suffix := hsuf, desc := hdesc }
+
+/-- **The files an fMRIPrep run reads** (`FmriprepRun.get_mask`, `get_confounds`,
+    `get_parcellation(_labels)`; the `desc` / `suffix` literals are regenerated from the source):
+    each is the run's own sibling — the bold file's entities with exactly `desc` and `suffix`
+    (and for the confound table `ext`, `space`) replaced; the search itself is for
+    `desc-preproc_bold` files of the `fmriprep` derivative. -/
+theorem fmriprep_accessor_files (e : BidsEnt) (h : ValidEnt e) :
+    Src.bidsParse (Src.maskOf e) = .ok { e with desc := some "brain".toList, suffix := "mask".toList } ∧
+    Src.bidsParse (Src.confoundsOf e) =
+      .ok { e with desc := some "confounds".toList, suffix := "timeseries".toList, ext := sTsv,
+                   space := none } ∧
+    Src.bidsParse (Src.parcOf e) =
+      .ok { e with desc := some "aparcaseg".toList, suffix := "dseg".toList } ∧
+    (∀ files tasks, Src.fmriprepRuns files tasks =
+      Src.findDerivativeFiles files "fmriprep".toList "preproc_bold".toList tasks) := by
+  obtain ⟨c1, c2, c3, c4, c5, c6, c7, c8⟩ := Src.fmriprep_constants
+  simp only [Src.maskOf, Src.confoundsOf, Src.parcOf, Src.fmriprepRuns, c1, c2, c3, c4, c5, c6, c7, c8]
+  refine ⟨?_, ?_, ?_, fun _ _ => trivial⟩
+  · exact (lookup_changes_only e h _ _ ⟨by decide, by decide, by decide, by decide⟩
+      ⟨by decide, by decide, by decide, by decide⟩).2.2.2
+  · exact (lookup_changes_only e h _ _ ⟨by decide, by decide, by decide, by decide⟩
+      ⟨by decide, by decide, by decide, by decide⟩).2.2.1
+  · exact (lookup_changes_only e h _ _ ⟨by decide, by decide, by decide, by decide⟩
+      ⟨by decide, by decide, by decide, by decide⟩).2.2.2
 
 /-- non-vacuity: a record with every optional entity present is valid, and so is one with none -/
 def exFull : BidsEnt :=
@@ -342,7 +381,7 @@ example : ValidEnt exBare :=
     suffix := ⟨by decide, by decide, by decide, by decide⟩
     ext := ⟨by decide, by decide⟩ }
 
-example : String.ofList (bidsFormat exFull) =
+example : String.ofList (Src.bidsFormat exFull) =
     "derivatives/fmriprep/sub-01/ses-02/func/sub-01_ses-02_task-main_run-1_space-MNI_desc-preproc_bold.nii.gz" := by
   decide
 
@@ -355,14 +394,15 @@ end bids
     contains `desc-<desc>`, is no `.json` side-car and (if tasks are given) contains
     `task-<t>` for a requested `t`; without a task filter the result is sorted. -/
 theorem derivative_files_spec (files : List Str) (derivative desc : Str) (p : Str) :
-    (p ∈ findDerivativeFiles files derivative desc none ↔
+    (p ∈ Src.findDerivativeFiles files derivative desc none ↔
       p ∈ files ∧ (sDerivatives ++ '/' :: derivative ++ ['/']).isPrefixOf p = true ∧
       (sSub ++ ['-']).isPrefixOf (basename p) = true ∧
       containsSub (sDesc ++ '-' :: desc) p = true ∧ endsWithStr sDotJson p = false) ∧
-    (findDerivativeFiles files derivative desc none).Pairwise (fun a b => strLe a b = true) ∧
-    (∀ ts, p ∈ findDerivativeFiles files derivative desc (some ts) ↔
-      p ∈ findDerivativeFiles files derivative desc none ∧
+    (Src.findDerivativeFiles files derivative desc none).Pairwise (fun a b => strLe a b = true) ∧
+    (∀ ts, p ∈ Src.findDerivativeFiles files derivative desc (some ts) ↔
+      p ∈ Src.findDerivativeFiles files derivative desc none ∧
         ∃ t ∈ ts, containsSub (sTask ++ '-' :: t) p = true) := by
+  simp only [Src.findDerivativeFiles_eq]
   refine ⟨?_, ?_, ?_⟩
   · simp only [findDerivativeFiles, sortStr, List.mem_filter, (List.mergeSort_perm _ _).mem_iff,
       Bool.and_eq_true, Bool.not_eq_true', and_assoc]
@@ -413,24 +453,25 @@ theorem meadows_segments (pets : List Str) (m exp v ver x st ext : Str)
     (∀ idx fpath, Tok idx → isDigitStr idx = true →
       (fpath = mname [m, exp, v, ver, x, idx, st] ext ∨
         ∃ dir, fpath = dir ++ '/' :: mname [m, exp, v, ver, x, idx, st] ext) →
-      meadowsSegments pets fpath = .ok
+      Src.meadowsSegments pets fpath = .ok
         { version := ver.filter (· != 'v'), experiment := exp, structure_ := st, filetype := ext,
           taskScopeSingle := true, participantScopeSingle := true,
           participant := some x, taskIndex := some (natOfDigits idx), taskName := none }) ∧
-    (∀ fpath, isDigitStr x = false → isPetname pets x = true →
+    (∀ fpath, isDigitStr x = false → Src.isPetname pets x = true →
       (fpath = mname [m, exp, v, ver, x, st] ext ∨
         ∃ dir, fpath = dir ++ '/' :: mname [m, exp, v, ver, x, st] ext) →
-      meadowsSegments pets fpath = .ok
+      Src.meadowsSegments pets fpath = .ok
         { version := ver.filter (· != 'v'), experiment := exp, structure_ := st, filetype := ext,
           taskScopeSingle := false, participantScopeSingle := true,
           participant := some x, taskIndex := none, taskName := none }) ∧
-    (∀ fpath, isDigitStr x = false → isPetname pets x = false →
+    (∀ fpath, isDigitStr x = false → Src.isPetname pets x = false →
       (fpath = mname [m, exp, v, ver, x, st] ext ∨
         ∃ dir, fpath = dir ++ '/' :: mname [m, exp, v, ver, x, st] ext) →
-      meadowsSegments pets fpath = .ok
+      Src.meadowsSegments pets fpath = .ok
         { version := ver.filter (· != 'v'), experiment := exp, structure_ := st, filetype := ext,
           taskScopeSingle := true, participantScopeSingle := false,
           participant := none, taskIndex := none, taskName := some x }) := by
+  simp only [Src.meadowsSegments_eq, Src.isPetname_eq]
   refine ⟨?_, ?_, ?_⟩
   · intro idx fpath hidx hdig hp
     obtain ⟨h1, h2⟩ := mname_split (toks := [m, exp, v, ver, x, idx, st]) (by simp)
@@ -446,12 +487,12 @@ theorem meadows_segments (pets : List Str) (m exp v ver x st ext : Str)
     simp [meadowsSegments, h1, h2, negIdx, meadowsInfoOf, hdig, hpet, pyReplace_delete]
 
 -- non-vacuity: the three bundled file-name shapes
-example : (meadowsSegments ["bunny".toList] "Meadows_myExp_v_v1_cuddly-bunny_3_1D.mat".toList).toOption.map
+example : (Src.meadowsSegments ["bunny".toList] "Meadows_myExp_v_v1_cuddly-bunny_3_1D.mat".toList).toOption.map
     (fun i => (i.participant, i.taskIndex, i.version)) =
       some (some "cuddly-bunny".toList, some 3, "1".toList) := by decide
-example : (meadowsSegments ["bunny".toList] "Meadows_myExp_v_v1_cuddly-bunny_tree.json".toList).toOption.map
+example : (Src.meadowsSegments ["bunny".toList] "Meadows_myExp_v_v1_cuddly-bunny_tree.json".toList).toOption.map
     (fun i => (i.participant, i.taskScopeSingle)) = some (some "cuddly-bunny".toList, false) := by decide
-example : (meadowsSegments ["bunny".toList] "Meadows_myExp_v_v1_arrangement_1D.mat".toList).toOption.map
+example : (Src.meadowsSegments ["bunny".toList] "Meadows_myExp_v_v1_arrangement_1D.mat".toList).toOption.map
     (fun i => (i.taskName, i.participantScopeSingle)) = some (some "arrangement".toList, false) := by
   decide
 
@@ -566,7 +607,9 @@ theorem epochs_mapping {α : Type} (data : List (List (List α))) (events : List
 /-- the descriptors read from a BIDS-style epochs file name are the subject, run and task
     encoded in it — for every valid entity record, whichever optional entities are present -/
 theorem mne_descriptors (e : BidsEnt) (h : ValidEnt e) :
-    mneDescriptors (bidsFname e) = (e.sub, e.run, e.task) := by
+    Src.mneDescriptors (Src.bidsFname e) = [(sSub, e.sub), (sRun, e.run), (sTask, e.task)] := by
+  rw [Src.mneDescriptors_eq, Src.bidsFname_eq]
+  suffices hs : mneDescriptors (bidsFname e) = (e.sub, e.run, e.task) by rw [hs]
   obtain ⟨s, hsub, hs⟩ := h.sub
   have hsx := h.suffix.2.2.1
   have hsegs : splitOn '_' (bidsFname e) = bidsFnameSegs e :=
@@ -614,8 +657,8 @@ theorem mne_descriptors (e : BidsEnt) (h : ValidEnt e) :
         NoPfx_entSeg _ len_task len_space (by decide)⟩, NoPfx_entSeg _ len_task len_desc (by decide)⟩,
         NoPfx_last _ _ (by decide) hsx⟩
 
-example : mneDescriptors "sub-01_task-x_run-2_epo.fif".toList =
-    (some "01".toList, some "2".toList, some "x".toList) := by decide
+example : Src.mneDescriptors "sub-01_task-x_run-2_epo.fif".toList =
+    [(sSub, some "01".toList), (sRun, some "2".toList), (sTask, some "x".toList)] := by decide
 
 /-! ## 5. HRF design matrix -/
 
@@ -760,10 +803,11 @@ theorem normalise_scale_invariant (x : List K) (p : K) (hp : 0 < p) :
 /-- the descriptors of an fMRIPrep run are the subject and exactly those of session, run and
     task that are present — each decided by its own presence -/
 theorem dataset_descriptors_exact (e : BidsEnt) (k : Str) (v : Option Str) :
-    (k, v) ∈ datasetDescriptors e ↔
+    (k, v) ∈ Src.datasetDescriptors e ↔
       (k = sSub ∧ v = e.sub) ∨ (k = sSes ∧ v = e.ses ∧ truthy e.ses = true) ∨
       (k = sRun ∧ v = e.run ∧ truthy e.run = true) ∨
       (k = sTask ∧ v = e.task ∧ truthy e.task = true) := by
+  rw [Src.datasetDescriptors_eq]
   unfold datasetDescriptors
   by_cases h1 : truthy e.ses = true <;> by_cases h2 : truthy e.run = true <;>
     by_cases h3 : truthy e.task = true <;> simp [h1, h2, h3]
@@ -861,7 +905,8 @@ theorem reg_index_one_based {β : Type} (l : List β) (reg : List Int) :
 /-- `'Sn(<digits>) <name>'` parses to the run number and the regressor name -/
 theorem parse_reg_name (d cond : Str) (hd : isDigitStr d = true) (hd' : ' ' ∉ d)
     (hc : ' ' ∉ cond) :
-    parseRegName (['S', 'n', '('] ++ d ++ [')'] ++ ' ' :: cond) = .ok (natOfDigits d, cond) := by
+    Src.parseRegName (['S', 'n', '('] ++ d ++ [')'] ++ ' ' :: cond) = .ok (natOfDigits d, cond) := by
+  rw [Src.parseRegName_eq]
   have hx : ' ' ∉ (['S', 'n', '('] ++ d ++ [')'] : Str) := by
     simp only [List.mem_append, List.mem_cons, List.not_mem_nil, not_or]
     exact ⟨⟨⟨by decide, by decide, by decide, not_false⟩, hd'⟩, by decide, not_false⟩
@@ -871,8 +916,449 @@ theorem parse_reg_name (d cond : Str) (hd : isDigitStr d = true) (hd' : ' ' ∉ 
     simp [List.dropLast_concat]
   simp [this, hd]
 
-example : parseRegName "Sn(12) face*bf(1)".toList = .ok (12, "face*bf(1)".toList) := by decide
+example : Src.parseRegName "Sn(12) face*bf(1)".toList = .ok (12, "face*bf(1)".toList) := by decide
 
 end spm
+
+
+/-! ## 7. (round 3) HRF predictor columns — what holds for *any* response kernel -/
+
+section hrf
+variable {K : Type} [Field K] [LinearOrder K] [IsStrictOrderedRing K]
+
+/-- **The sampling grids** (generated leaves `volTime`, `hrfTime` = numpy's `linspace` on the
+    source's arguments): volume `i` is acquired at `i·TR`, the response of `len` samples ends at
+    `(len − 1)·TR`. -/
+theorem hrf_sampling_grid (tr : K) (n len i : Nat) (hn : 2 ≤ n) (hl : 2 ≤ len) :
+    volTimeAt tr n i = tr * i ∧ hrfEnd tr len = tr * ((len - 1 : Nat) : K) :=
+  ⟨volTimeAt_eq tr n i hn, hrfEnd_eq tr len hl⟩
+
+/-- **Linear in the events**: the predictor of two sets of onsets is the sum of their predictors
+    (so each block contributes independently), and the order of the event rows is irrelevant. -/
+theorem hrf_linear_in_events (P : K → K) (T tr : K) (n : Nat) (a b : List K) :
+    predictorCol P T tr n (a ++ b) =
+      List.zipWith (· + ·) (predictorCol P T tr n a) (predictorCol P T tr n b) ∧
+    (∀ c : List K, a.Perm c → predictorCol P T tr n a = predictorCol P T tr n c) := by
+  constructor
+  · simp only [predictorCol, List.zipWith_map, List.zipWith_self, List.map_map, List.map_append,
+      List.sum_append]
+  · intro c h
+    simp only [predictorCol]
+    apply List.map_congr_left
+    intro i _
+    exact (h.map _).sum_eq
+
+/-- **Linear in the kernel**: scaling the response scales every predictor column. -/
+theorem hrf_linear_in_kernel (P : K → K) (c T tr : K) (n : Nat) (onsets : List K) :
+    predictorCol (fun x => c * P x) T tr n onsets = (predictorCol P T tr n onsets).map (c * ·) := by
+  simp only [predictorCol, List.map_map]
+  apply List.map_congr_left
+  intro i _
+  simp only [Function.comp]
+  rw [← List.sum_map_mul_left]
+  congr 1
+  apply List.map_congr_left
+  intro o _
+  by_cases h : o ≤ volTimeAt tr n i ∧ volTimeAt tr n i ≤ o + T <;> simp [respAt, h]
+
+/-- **Zero outside the support**: a volume acquired before every onset of the condition (or
+    after the end of every placed response) has predictor value exactly 0. -/
+theorem hrf_zero_outside_support (P : K → K) (T tr : K) (n : Nat) (onsets : List K) (i : Nat)
+    (hi : i < n)
+    (h : ∀ o ∈ onsets, volTimeAt tr n i < o ∨ o + T < volTimeAt tr n i) :
+    (predictorCol P T tr n onsets)[i]? = some 0 := by
+  rw [predictorCol_getElem? P T tr n onsets i hi]
+  congr 1
+  apply List.sum_eq_zero
+  intro x hx
+  obtain ⟨o, ho, rfl⟩ := List.mem_map.mp hx
+  have : ¬ (o ≤ volTimeAt tr n i ∧ volTimeAt tr n i ≤ o + T) := by
+    rcases h o ho with h1 | h1
+    · exact fun hh => absurd hh.1 (not_le.mpr h1)
+    · exact fun hh => absurd hh.2 (not_le.mpr h1)
+  simp [respAt, this]
+
+/-- **Shift equivariance on the sampling grid**: delaying every onset by `k` TRs delays the
+    predictor column by `k` samples. -/
+theorem hrf_shift_equivariant (P : K → K) (T tr : K) (n : Nat) (hn : 2 ≤ n) (onsets : List K)
+    (k i : Nat) (hik : i + k < n) :
+    (predictorCol P T tr n (onsets.map (· + tr * k)))[i + k]? =
+      (predictorCol P T tr n onsets)[i]? := by
+  rw [predictorCol_getElem? P T tr n _ (i + k) hik,
+    predictorCol_getElem? P T tr n onsets i (by omega)]
+  congr 2
+  rw [List.map_map]
+  apply List.map_congr_left
+  intro o _
+  simp only [Function.comp, respAt, volTimeAt_eq tr n _ hn, Nat.cast_add]
+  have e1 : (o + tr * k ≤ tr * ((i : K) + k)) = (o ≤ tr * i) := by
+    apply propext; constructor <;> intro h <;> linarith
+  have e2 : (tr * ((i : K) + k) ≤ o + tr * k + T) = (tr * i ≤ o + T) := by
+    apply propext; constructor <;> intro h <;> linarith
+  have e3 : tr * ((i : K) + k) - (o + tr * k) = tr * i - o := by ring
+  simp only [e1, e2, e3]
+
+/-- non-vacuity: with TR 2 the first volume precedes an onset at 2 s -/
+example : ∀ o ∈ [(2 : ℚ)], volTimeAt (2 : ℚ) 4 0 < o ∨ o + 10 < volTimeAt (2 : ℚ) 4 0 := by
+  intro o ho
+  rw [volTimeAt_eq _ _ _ (by norm_num)]
+  simp only [List.mem_singleton] at ho
+  subst ho
+  left; norm_num
+
+end hrf
+
+/-- **The tabulated response is a haemodynamic response sampled at 100 ms** (table regenerated
+    from `io/hrf.py`, units of 1e-7): 490 samples starting at 0, rising monotonically to the single
+    peak 0.0182 at 4.8 s, falling monotonically to the undershoot minimum −0.00157 at 17.4 s,
+    then returning monotonically towards 0 (|last| < 1e-5). -/
+theorem hrf_table_shape :
+    hrfTable.length = 490 ∧ hrfTable.head? = some 0 ∧
+    argmaxInt hrfTable = 48 ∧ hrfTable[48]? = some 182000 ∧
+    argmaxInt (hrfTable.map (fun v => -v)) = 174 ∧ hrfTable[174]? = some (-15700) ∧
+    nondecreasing (hrfTable.take 49) = true ∧
+    nondecreasing (((hrfTable.drop 48).take 127).map (fun v => -v)) = true ∧
+    nondecreasing (hrfTable.drop 174) = true ∧
+    hrfTable.getLast? = some (-61) := by decide +kernel
+
+
+/-! ## 8. (round 3) MNE: the time axis and selections of epochs -/
+
+section mne
+variable {K : Type} [Field K] [LinearOrder K] [IsStrictOrderedRing K]
+
+/-- **`tmin` offsets → time descriptor values.**  For an epoch that starts `first` samples
+    relative to its event (`tmin = first / sfreq`, negative for a baseline) the time descriptor
+    has one value per sample, sample `k` lies at `(first + k) / sfreq`, the values increase
+    strictly in steps of `1 / sfreq`, and the event itself (time 0) is sample `−first`. -/
+theorem epoch_times_grid (first : Int) (sfreq : K) (hs : 0 < sfreq) (n : Nat) :
+    (epochTimes first sfreq n).length = n ∧
+    (∀ k < n, (epochTimes first sfreq n)[k]? = some (((first + (k : Int) : Int) : K) / sfreq)) ∧
+    (epochTimes first sfreq n).Pairwise (· < ·) ∧
+    (∀ k, k + 1 < n → ∀ a b, (epochTimes first sfreq n)[k]? = some a →
+      (epochTimes first sfreq n)[k + 1]? = some b → b - a = 1 / sfreq) ∧
+    (first ≤ 0 → (-first).toNat < n → (epochTimes first sfreq n)[(-first).toNat]? = some 0) := by
+  have hget : ∀ k < n, (epochTimes first sfreq n)[k]? =
+      some (((first + (k : Int) : Int) : K) / sfreq) := by
+    intro k hk; simp [epochTimes, hk]
+  refine ⟨by simp [epochTimes], hget, ?_, ?_, ?_⟩
+  · unfold epochTimes
+    rw [List.pairwise_map]
+    refine List.Pairwise.imp ?_ List.pairwise_lt_range
+    intro a b hab
+    apply div_lt_div_of_pos_right _ hs
+    have : first + Int.ofNat a < first + Int.ofNat b := by
+      have : (a : Int) < (b : Int) := by exact_mod_cast hab
+      simpa using this
+    exact_mod_cast this
+  · intro k hk a b ha hb
+    rw [hget k (by omega)] at ha
+    rw [hget (k + 1) hk] at hb
+    cases ha; cases hb
+    rw [← sub_div]
+    congr 1
+    push_cast
+    ring
+  · intro h0 hlt
+    rw [hget _ hlt]
+    have : first + (((-first).toNat : Nat) : Int) = 0 := by omega
+    rw [this]; simp
+
+/-- **Selecting epochs by event code** (`epochs['a']`, repeated codes included) keeps every
+    selected epoch attached to its own event row: the observation descriptor of the selection is
+    the filtered descriptor of the whole, in the same order, one per kept epoch. -/
+theorem epochs_selection {α β : Type} (keep : Int → Bool) (data : List β)
+    (events : List (Int × Int × Int)) (h : data.length = events.length) :
+    (selectEpochs keep data events).2 = events.filter (fun e => keep e.2.2) ∧
+    (selectEpochs keep data events).1.length = (selectEpochs keep data events).2.length ∧
+    ((selectEpochs keep data events).1.zip (selectEpochs keep data events).2).Sublist
+      (data.zip events) ∧
+    (∀ (d : List (List (List α))) (ch : List Str) (times : List α), d.length = events.length →
+      (fromEpochs (selectEpochs keep d events).1 (selectEpochs keep d events).2 ch times).event =
+        (fromEpochs d events ch times).event.filter keep) := by
+  have hsnd : ∀ {γ : Type} (dd : List γ), dd.length = events.length →
+      (selectEpochs keep dd events).2 = events.filter (fun e => keep e.2.2) := by
+    intro γ dd hd
+    simp only [selectEpochs]
+    have : ((dd.zip events).filter (fun de => keep de.2.2.2)).map (·.2) =
+        ((dd.zip events).map (·.2)).filter (fun e => keep e.2.2) := by
+      rw [List.filter_map]; rfl
+    rw [this, List.map_snd_zip (by omega)]
+  refine ⟨hsnd data h, by simp [selectEpochs], ?_, ?_⟩
+  · simp only [selectEpochs]
+    have hz : ∀ z : List (β × (Int × Int × Int)), (z.map (·.1)).zip (z.map (·.2)) = z := by
+      intro z; induction z <;> simp_all
+    rw [hz]
+    exact List.filter_sublist
+  · intro d ch times hd
+    simp only [fromEpochs, hsnd d hd, List.filter_map]
+    rfl
+
+example : (selectEpochs (fun c => c == 2) ["a", "b", "c"] [(0, 0, 2), (5, 0, 1), (9, 0, 2)]) =
+    (["a", "c"], [(0, 0, 2), (9, 0, 2)]) := by decide
+
+end mne
+
+/-! ## 9. (round 3) SPM: residuals, beta images, relocation -/
+
+section spm3
+open Finset
+variable {K : Type} [Field K]
+
+/-- **`get_residuals` wiring.**  `beta = pinvX · f` and `residuals = f − X · beta` of the
+    filtered, weighted data `f = spm_filter(W · data)`; and when `pinvX` is a left inverse of the
+    design (`pinvX · X = I`, as SPM's `pKX`) the residuals carry no component along any
+    regressor: `pinvX · residuals = 0`. -/
+theorem spm_residuals_annihilated (n q : Nat) (runs : List (Run K)) (W pinvX X data : Nat → Nat → K)
+    (hPX : ∀ c < q, ∀ c' < q, ∑ r ∈ range n, pinvX c r * X r c' = if c = c' then 1 else 0)
+    (c : Nat) (hc : c < q) (p : Nat) :
+    (spmResiduals n q runs W pinvX X data).2 c p =
+      ∑ r ∈ range n, pinvX c r * spmFilter runs (mmul n W data) r p ∧
+    ∑ r ∈ range n, pinvX c r * (spmResiduals n q runs W pinvX X data).1 r p = 0 := by
+  constructor
+  · simp [spmResiduals, mmul, sumRange_eq]
+  · have := resid_annihilated n q pinvX X (spmFilter runs (mmul n W data)) hPX c hc p
+    simpa [spmResiduals, mmul, sumRange_eq] using this
+
+/-- **`get_betas` wiring.**  The images sampled are the beta images of the regressors of
+    interest (1-based, in their order) followed by `ResMS.nii`; the rows returned as betas are the
+    samples of the former, the `ResMS` row is the sample of the latter. -/
+theorem betas_resms_split {γ : Type} (path : Str) (betaFiles : List Str) (reg : List Int)
+    (sample : Option Str → γ) :
+    (betaImages path betaFiles reg).length = reg.length + 1 ∧
+    splitBetas ((betaImages path betaFiles reg).map sample) =
+      ((selectBetas betaFiles reg).map (fun o => sample (o.map (fun f => path ++ '/' :: f))),
+       some (sample (some (path ++ '/' :: sResMS)))) := by
+  constructor
+  · simp [betaImages, selectBetas]
+  · simp [betaImages, splitBetas, List.dropLast_concat, List.getLast?_concat, List.map_map,
+      Function.comp_def]
+
+/-- `s.replace('\\', '/')` -/
+def toSlash (s : Str) : Str := s.map (fun x => if x = '\\' then '/' else x)
+
+/-- **`relocate_file` is independent of the operating system that wrote the path**: a
+    Windows-style entry and its POSIX spelling relocate to the same place, the result has no
+    backslash, and it is `<project>/func…` from the *first* `func` of the normalised entry on. -/
+theorem relocate_spec (base fpath : Str) :
+    Src.relocate base fpath = Src.relocate (toSlash base) (toSlash fpath) ∧
+    '\\' ∉ Src.relocate base fpath ∧
+    (∀ a b : Str, toSlash fpath = a ++ sFunc ++ b →
+      (∀ k < a.length, sFunc.isPrefixOf ((a ++ sFunc ++ b).drop k) = false) →
+      Src.relocate base fpath = toSlash base ++ '/' :: (sFunc ++ b)) := by
+  have hidem : ∀ s : Str, toSlash (toSlash s) = toSlash s := by
+    intro s
+    simp only [toSlash, List.map_map]
+    apply List.map_congr_left
+    intro x _
+    by_cases hx : x = '\\' <;> simp [hx]
+  have hno : ∀ s : Str, '\\' ∉ toSlash s := by
+    intro s hm
+    obtain ⟨x, _, hx⟩ := List.mem_map.mp hm
+    by_cases h : x = '\\'
+    · simp [h] at hx
+    · simp [h] at hx
+  simp only [Src.relocate_eq, relocate, pyReplace_char]
+  refine ⟨?_, ?_, ?_⟩
+  · show (match findSub sFunc (toSlash fpath) with
+        | some c => toSlash base ++ '/' :: (toSlash fpath).drop c
+        | none => toSlash base ++ '/' :: (toSlash fpath).drop ((toSlash fpath).length - 1)) =
+      (match findSub sFunc (toSlash (toSlash fpath)) with
+        | some c => toSlash (toSlash base) ++ '/' :: (toSlash (toSlash fpath)).drop c
+        | none => toSlash (toSlash base) ++ '/' ::
+            (toSlash (toSlash fpath)).drop ((toSlash (toSlash fpath)).length - 1))
+    rw [hidem, hidem]
+  · show '\\' ∉ (match findSub sFunc (toSlash fpath) with
+        | some c => toSlash base ++ '/' :: (toSlash fpath).drop c
+        | none => toSlash base ++ '/' :: (toSlash fpath).drop ((toSlash fpath).length - 1))
+    have hd : ∀ k, '\\' ∉ toSlash base ++ '/' :: (toSlash fpath).drop k := by
+      intro k hm
+      rcases List.mem_append.mp hm with hm | hm
+      · exact hno _ hm
+      · rcases List.mem_cons.mp hm with hm | hm
+        · exact absurd hm (by decide)
+        · exact hno _ (List.mem_of_mem_drop hm)
+    cases findSub sFunc (toSlash fpath) <;> exact hd _
+  · intro a b hab hfirst
+    show (match findSub sFunc (toSlash fpath) with
+        | some c => toSlash base ++ '/' :: (toSlash fpath).drop c
+        | none => toSlash base ++ '/' :: (toSlash fpath).drop ((toSlash fpath).length - 1)) = _
+    rw [hab, findSub_first sFunc a b hfirst]
+    simp
+
+example : String.ofList (Src.relocate "/data/proj".toList "C:\\study\\func\\run1.nii,1".toList) =
+    "/data/proj/func/run1.nii,1" := by decide
+
+end spm3
+
+/-! ## 10. (round 3) Meadows: rejected combinations, names without extension; confounds -/
+
+section meadows3
+variable {α : Type}
+
+/-- **Which scope / file-type combinations are rejected.**  A `.json` of a multi-participant
+    download, a `.json` of a single task, a `.json` whose `tasks` entry is no list: `ValueError`;
+    a `.mat` named like a multi-task download (pet-name participant, no task index): never loads
+    (`KeyError` on the missing index once both variables are found, `ValueError` otherwise). -/
+theorem meadows_rejections :
+    (∀ (info : MInfo) (tasks : Option (List (JTask α))), info.participantScopeSingle = false →
+      compsJson info tasks = .error "ValueError") ∧
+    (∀ (info : MInfo) (tasks : Option (List (JTask α))), info.participantScopeSingle = true →
+      info.taskScopeSingle = true → compsJson info tasks = .error "ValueError") ∧
+    (∀ (info : MInfo), info.participantScopeSingle = true → info.taskScopeSingle = false →
+      compsJson (α := α) info none = .error "ValueError") ∧
+    (∀ (info : MInfo) (vars : List (Str × MatVal α)), info.participantScopeSingle = true →
+      info.taskIndex = none →
+      compsMat info vars = .error "KeyError" ∨ compsMat info vars = .error "ValueError") := by
+  refine ⟨?_, ?_, ?_, ?_⟩
+  · intro info tasks h; simp [compsJson, h]
+  · intro info tasks h1 h2; simp [compsJson, h1, h2]
+  · intro info h1 h2; simp [compsJson, h1, h2]
+  · intro info vars h1 h2
+    simp only [compsMat, h1, if_true, h2]
+    cases lookupVar vars sStimuli with
+    | none => right; rfl
+    | some v =>
+      cases v with
+      | nums r => right; rfl
+      | strs st =>
+        cases lookupVar vars sRdmutv with
+        | none => right; rfl
+        | some w =>
+          cases w with
+          | strs _ => right; rfl
+          | nums rows => left; cases info.participant <;> rfl
+
+/-- **The Meadows loaders' constants as the source spells them** (regenerated on every run):
+    the participant ↔ variable-name mapping, the stem of a stimulus name, the variable names, the
+    task type and the descriptor keys of the model are those of `io/meadows.py`. -/
+theorem meadows_loader_syntax :
+    (∀ v, pnameOfVar v = joinWith (Char.ofNat Rsa.Gen.C20.mlPnameJoin)
+      ((splitOn (Char.ofNat Rsa.Gen.C20.mlPnameSplit) v).drop Rsa.Gen.C20.mlPnameFrom)) ∧
+    (∀ p, utvVarOf p = natToStr Rsa.Gen.C20.mlUtvPrefix ++
+      pyReplace [Char.ofNat Rsa.Gen.C20.mlUtvFrom] [Char.ofNat Rsa.Gen.C20.mlUtvTo] p) ∧
+    (∀ f, stem f = ((splitOn (Char.ofNat Rsa.Gen.C20.mlStemSep) f)[Rsa.Gen.C20.mlStemIdx]?).getD []) ∧
+    natToStr Rsa.Gen.C20.mlStimPrefix = sStimuli ∧ Rsa.Gen.C20.mlStimPrefixLen = 7 ∧
+    natToList Rsa.Gen.C20.mlSingleVars = [sStimuli, sRdmutv] ∧
+    natToStr Rsa.Gen.C20.mlJsonType = sMultiarrange ∧
+    natToList Rsa.Gen.C20.mlRdmKeys =
+      ["participant".toList, "task".toList, "task_index".toList] := by
+  refine ⟨fun v => rfl, ?_, ?_, by decide, by decide, by decide, by decide, by decide⟩
+  · intro p
+    have : natToStr Rsa.Gen.C20.mlUtvPrefix = sRdmutv ++ ['_'] := by decide
+    rw [this]
+    simp [utvVarOf]
+    rfl
+  · intro f
+    have h1 : Char.ofNat Rsa.Gen.C20.mlStemSep = '.' := by decide
+    have h2 : Rsa.Gen.C20.mlStemIdx = 0 := by decide
+    rw [h1, h2]
+    unfold stem
+    cases splitOn '.' f <;> rfl
+
+/-- **Stimulus names without extension.**  `loadmat` blank-pads the rows of a char matrix.  A
+    name with an extension loses the padding together with the extension (`split('.')[0]`), so
+    its label is exact; a name *without* extension keeps it: its label is the name followed by
+    the blanks that pad it to the longest name. -/
+theorem stem_padded (s : Str) (k : Nat) :
+    ('.' ∈ s → stem (s ++ List.replicate k ' ') = stem s) ∧
+    ('.' ∉ s → stem (s ++ List.replicate k ' ') = s ++ List.replicate k ' ') := by
+  constructor
+  · intro h
+    obtain ⟨a, b, rfl, ha⟩ := List.eq_append_cons_of_mem h
+    have e : a ++ '.' :: b ++ List.replicate k ' ' = a ++ '.' :: (b ++ List.replicate k ' ') := by simp
+    rw [e]
+    simp [stem, splitOn_append_sep _ ha]
+  · intro h
+    have : '.' ∉ s ++ List.replicate k ' ' := by
+      simp only [List.mem_append, List.mem_replicate, not_or]
+      exact ⟨h, fun hh => absurd hh.2 (by decide)⟩
+    simp [stem, splitOn_of_not_mem this]
+
+/-- every row of the padded matrix is the name plus blanks, all rows equally long -/
+theorem padStrs_spec (l : List Str) :
+    (padStrs l).length = l.length ∧
+    (∀ i (hi : i < l.length), ∃ k, (padStrs l)[i]? = some (l[i] ++ List.replicate k ' ') ∧
+      (l[i] ++ List.replicate k ' ').length = l.foldl (fun m s => max m s.length) 0) := by
+  have hmax : ∀ (l : List Str) (m0 : Nat) (s : Str), s ∈ l →
+      s.length ≤ l.foldl (fun m s => max m s.length) m0 := by
+    intro l
+    induction l with
+    | nil => intro m0 s h; simp at h
+    | cons x xs ih =>
+      intro m0 s h
+      have hmono : ∀ (ys : List Str) (a b : Nat), a ≤ b →
+          ys.foldl (fun m s => max m s.length) a ≤ ys.foldl (fun m s => max m s.length) b := by
+        intro ys
+        induction ys with
+        | nil => intro a b hab; simpa using hab
+        | cons y ys ihy => intro a b hab; simp only [List.foldl_cons]; exact ihy _ _ (by omega)
+      have hge : ∀ (ys : List Str) (a : Nat), a ≤ ys.foldl (fun m s => max m s.length) a := by
+        intro ys
+        induction ys with
+        | nil => intro a; simp
+        | cons y ys ihy => intro a; simp only [List.foldl_cons]; exact le_trans (by omega) (ihy _)
+      simp only [List.foldl_cons]
+      rcases List.mem_cons.mp h with rfl | h
+      · exact le_trans (by omega) (hge xs _)
+      · exact ih _ s h
+  refine ⟨by simp [padStrs], ?_⟩
+  intro i hi
+  refine ⟨l.foldl (fun m s => max m s.length) 0 - l[i].length, by simp [padStrs, hi], ?_⟩
+  have := hmax l 0 l[i] (List.getElem_mem hi)
+  simp only [List.length_append, List.length_replicate]
+  omega
+
+/-- **Confound selection** (`FmriprepRun.get_confounds`): the columns returned are exactly the
+    requested names in the requested order — the nine default names (regenerated from the
+    source) when none or an empty list is requested — each with the values of the table's
+    column of that name; a missing column is an error, never a silent omission. -/
+theorem confound_selection {β : Type} (dflt : List Str) (cf : Option (List Str))
+    (table : List (Str × β)) (res : List (Str × β))
+    (h : selectConfounds dflt cf table = .ok res) :
+    res.map (·.1) = (match cf with | some (n :: ns) => n :: ns | _ => dflt) ∧
+    (∀ kv ∈ res, ∃ kv' ∈ table, kv'.1 = kv.1 ∧ kv'.2 = kv.2) ∧
+    Src.confoundDefault = ["global_signal".toList, "csf".toList, "white_matter".toList,
+      "trans_x".toList, "trans_y".toList, "trans_z".toList, "rot_x".toList, "rot_y".toList,
+      "rot_z".toList] := by
+  have key : ∀ names : List Str,
+      names.mapM (fun n => match table.find? (fun kv => kv.1 == n) with
+        | some kv => Except.ok (n, kv.2)
+        | none => Except.error "KeyError") = .ok res →
+      res.map (·.1) = names ∧ (∀ kv ∈ res, ∃ kv' ∈ table, kv'.1 = kv.1 ∧ kv'.2 = kv.2) := by
+    intro names h
+    obtain ⟨hlen, hget⟩ := mapM_ok_spec _ names res h
+    have hone : ∀ i (hi : i < names.length) (hr : i < res.length),
+        res[i].1 = names[i] ∧ ∃ kv' ∈ table, kv'.1 = res[i].1 ∧ kv'.2 = res[i].2 := by
+      intro i hi hr
+      have := hget i hi hr
+      cases hf : table.find? (fun kv => kv.1 == names[i]) with
+      | none => simp [hf] at this
+      | some kv =>
+        simp only [hf, Except.ok.injEq] at this
+        have hm := List.mem_of_find?_eq_some hf
+        have hk := List.find?_some hf
+        simp only [beq_iff_eq] at hk
+        rw [← this]
+        exact ⟨rfl, kv, hm, hk, rfl⟩
+    refine ⟨?_, ?_⟩
+    · apply List.ext_getElem (by simp [hlen])
+      intro i h1 h2
+      simp only [List.getElem_map]
+      exact (hone i (by simpa using h2) (by simpa using h1)).1
+    · intro kv hkv
+      obtain ⟨i, hi, rfl⟩ := List.getElem_of_mem hkv
+      exact (hone i (by omega) hi).2
+  refine ⟨?_, ?_, by decide⟩
+  · rcases cf with _ | _ | ⟨n, ns⟩ <;> exact (key _ h).1
+  · rcases cf with _ | _ | ⟨n, ns⟩ <;> exact (key _ h).2
+
+example : selectConfounds ["csf".toList] (some []) [("csf".toList, 1), ("rot_x".toList, 2)] =
+    .ok [("csf".toList, 1)] := by decide
+example : selectConfounds ["csf".toList] (some ["rot_x".toList, "csf".toList])
+    [("csf".toList, 1), ("rot_x".toList, 2)] = .ok [("rot_x".toList, 2), ("csf".toList, 1)] := by
+  decide
+
+end meadows3
 
 end Rsa.Props.C20
